@@ -161,9 +161,9 @@ def run(ctx):
     ctx.cov["recrash_scenarios"] = len(combos)
 
     # ---- the recorded workload ---------------------------------------------------------
-    workloads = [("thorough", 60000)] if ctx.thorough else [("quick", None)]
+    workloads = [("thorough", 40000)] if ctx.thorough else [("quick", None)]
     if ctx.thorough:
-        workloads.append(("bulk", 260))
+        workloads.append(("bulk", 120))
     cov_w = {}
     first_items = None
     for wl, sample_n in workloads:
@@ -175,7 +175,18 @@ def run(ctx):
         items = plans(ctx, d, wl)
         nplans = sum(1 for it in items if it["t"] == "plan")
         if sample_n is not None and nplans > sample_n:
-            keep = set(id(x) for x in verif.sample(ctx.rng, [it for it in items if it["t"] == "plan"], sample_n))
+            # stratified by crash point: every point keeps plans, small points keep all of theirs
+            by_pt = {}
+            for it in items:
+                if it["t"] == "plan":
+                    by_pt.setdefault(it["pt"], []).append(it)
+            keep, budget, left = set(), sample_n, len(by_pt)
+            for pt in sorted(by_pt, key=lambda q: (len(by_pt[q]), q)):
+                quota = max(1, budget // left)
+                chosen = verif.sample(ctx.rng, by_pt[pt], quota)
+                keep.update(id(x) for x in chosen)
+                budget -= len(chosen)
+                left -= 1
             items = [it for it in items if it["t"] != "plan" or id(it) in keep]
         res = replay(ctx, vh, items, wl, dense, obs["digest"], wl)
         ctx.absorb(res)
